@@ -19,7 +19,8 @@ func TestMain(m *testing.M) {
 	lib.Extra("rule", "rapid-generated router configurations: 1..6 handlers over a pool of 3 topics, 1..3 scripted subscribers and 1..3 scripted publishers (sharing allowed; named via fmt.Stringer or by type), "+
 		"no-publisher handlers with or without an output-adding middleware, message streams emitted concurrently on every subscription, outputs 0..3 fresh / the consumed object / one object twice. "+
 		"Oracle = routing model (channel->handler bijection per (subscriber,topic); Publish on the handler's publisher/topic with the returned pointers, order and content; context accessors). "+
-		"Non-trivial: >=2 handlers share a topic, a subscriber or a publisher. Distinct by canonical case encoding.")
+		"Non-trivial: >=2 handlers share a topic, a subscriber or a publisher. Distinct by canonical case encoding."+
+		" A function may ack or nack the consumed message itself and still return outputs (published all the same; the first settlement stands).")
 	lib.Extra("assumptions", []string{
 		"a scripted subscriber cannot know which handler called Subscribe; the check demands that the observed channel->handler relation is a bijection onto the handlers registered for that (subscriber, topic)",
 		"20 s liveness bound for settlement",
